@@ -31,7 +31,7 @@ def gen_range(t, size, chunk):
             specs.append("-%d" % t.choice([1, 1, 2, min(chunk, size), max(1, size // 2), max(1, size - 1), size]))
         else:
             specs.append("-%d" % t.choice([1, 1, 2, chunk, max(1, size // 2), max(1, size - 1), max(1, size), size + 1, 0, 10 ** 9]))
-    sep = t.choice([",", ",", ", ", " , "])
+    sep = t.choice([",", ",", ", ", " , ", ",\t", ",  ", " ,\t "])      # OWS = *( SP / HTAB ) around the commas
     return "bytes=" + sep.join(specs), "valid"
 
 
